@@ -436,6 +436,12 @@ fn exec(ctx: &Ctx, st: &mut State, toks: &[&str]) -> String {
             st.get(v).backward(seed);
             "ok".into()
         }
+        ["backwardc", v, s] => {
+            LOG.with(|l| l.borrow_mut().clear());
+            let seed = st.get(s).clone();
+            st.get(v).backward(Some(seed));
+            "ok".into()
+        }
         ["grad", v] => match &*st.get(v).gradient() {
             Some(g) => format!("{} | tr={}", ctx.render_a(g), b01(is_tracked(g))),
             None => "none".into(),
